@@ -131,4 +131,18 @@ def firstRejected (keyFn : Ctx → Bytes) : List Rec → List Ev → Nat → Opt
     | some s' => firstRejected keyFn s' es (i + 1)
     | none => some i
 
+/-- What `Cache.Exec` stores when the rest of the sequence has returned. Responses
+are compared by identity: `before` is the response in the context when the rest
+started (this cache's own hit, or whatever a plugin in front of it - another cache
+whose hit travels on - had put there), `after` the one in the context when the rest
+returned. The regenerated fact says whether the source compares exactly these
+two; for any other reading no store function is known. A `store` event of the
+trace acceptor stands for such a store. -/
+def execStores (storesOnlyNewResponse : Option Bool) : Option (Option Nat → Option Nat → Option Nat) :=
+  if storesOnlyNewResponse = some true then some (fun before after => if after = before then none else after) else none
+
+/-- The earlier condition: only this cache's own hit is left out. -/
+def execStoresUnlessOwnHit (ownHit _before after : Option Nat) : Option Nat :=
+  if after = ownHit then none else after
+
 end Model.C04
